@@ -152,6 +152,16 @@ CONTRACTS = {
         'linear', "ite(op == '!=', count(a, {B}) != C, cmp_op(op, count(a, {B}), C))",
         params={'F': 'obj:CNF', 'k': 'int', 'op': 'str', 'C': 'int'},
         raises={'ValueError': "k < 1 or not (op == '==' or op == '<' or op == '>' or op == '<=' or op == '>=' or op == '!=')"}),
+    # the four named threshold substitutions are one-line calls of LinearSubstitution (inlined here, so that the induced
+    # assignment of the callee's gadget is the one the postcondition speaks about)
+    (S, 'AtLeastKSubstitution'): dict(wrapper('linear', 'count(a, {B}) >= C'.replace('C', 'KK'), params={'F': 'obj:CNF', 'N': 'int', 'k': 'int'},
+                                              raises={'ValueError': 'N < 1'}), inline=['LinearSubstitution']),
+    (S, 'AtMostKSubstitution'): dict(wrapper('linear', 'count(a, {B}) <= KK', params={'F': 'obj:CNF', 'N': 'int', 'k': 'int'},
+                                             raises={'ValueError': 'N < 1'}), inline=['LinearSubstitution']),
+    (S, 'ExactlyKSubstitution'): dict(wrapper('linear', 'count(a, {B}) == KK', params={'F': 'obj:CNF', 'N': 'int', 'k': 'int'},
+                                              raises={'ValueError': 'N < 1'}), inline=['LinearSubstitution']),
+    (S, 'AnythingButKSubstitution'): dict(wrapper('linear', 'count(a, {B}) != KK', params={'F': 'obj:CNF', 'N': 'int', 'k': 'int'},
+                                                  raises={'ValueError': 'N < 1'}), inline=['LinearSubstitution']),
     ('cnfgen/localtypes.py', 'one_of_values'): {'inline_always': True},
     ('cnfgen/localtypes.py', 'any_int'): {'inline_always': True},
     # exactly one of the block
@@ -177,6 +187,44 @@ CONTRACTS = {
         'aesubst', '(count(a, {B}) == 0 or count(a, {B}) == k) != invert', params={'F': 'obj:CNF', 'k': 'int', 'invert': 'bool'}),
     (S, 'NotAllEqualSubstitution'): dict(
         wrapper('aesubst', 'not (count(a, {B}) == 0 or count(a, {B}) == k)'), inline=['AllEqualSubstitution']),
+    # lifting: original variable v owns 2k new variables: k copies X (first) and k selectors Y; selector i picks copy i
+    (S, 'FormulaLifting.lift'): {
+        'property': ['C05', 'C10'],
+        'params': {'lit': 'int'},
+        'closure_vars': {'k': 'int'},
+        'ghost_params': {'a': 'asg'},
+        'requires': ['lit != 0', 'k >= 1'],
+        'raises': {},
+        'ensures': ['sat(a, asclauses(result)) == liftsem(a, abs(lit), k, lit > 0)',
+                    'cmaxabs(asclauses(result)) <= abs(lit) * 2 * k', 'not chaszero(asclauses(result))'],
+    },
+    (S, 'FormulaLifting'): {
+        'property': ['C05', 'C10', 'C19'],
+        'params': {'F': 'obj:CNF', 'k': 'int'},
+        'ghost_params': {'a': 'asg'},
+        'requires': FWF,
+        'raises': {'ValueError': 'k < 1'},
+        'loops': {
+            0: {'inv': ['newF._numvar == 2 * k * _it', 'newF._clauses == cnil'],
+                'modifies_objects': ['newF'], 'modifies_fields': {'newF': ['_numvar']}},
+            1: {'niter': 'F._numvar',
+                # the list built in iteration t is the selector block of variable t+1 (names the ground term for the lemma instances)
+                'hints': ['yblock(_it + 1, k) == apseq(y, k)'],
+                'inv': ['newF._numvar == N', 'N == 2 * k * F._numvar', 'cmaxabs(newF._clauses) <= N', 'not chaszero(newF._clauses)',
+                        'sat(a, newF._clauses) == forall(lambda v: implies(1 <= v and v <= _it, count(a, yblock(v, k)) == 1), lambda v: yblock(v, k))'],
+                'modifies_objects': ['newF'], 'modifies_fields': {'newF': ['_clauses', '_numvar']}},
+        },
+        'ensures': [
+            # a satisfies the lifted formula iff exactly one selector is true for every original variable and the assignment
+            # "v := the selected copy of v" satisfies F
+            'sat(a, result._clauses) == (forall(lambda v: implies(1 <= v and v <= F._numvar, count(a, yblock(v, k)) == 1), lambda v: yblock(v, k)) '
+            'and sat(aind(a, gadid("lift")), F._clauses))',
+            'forall(lambda v: implies(1 <= v and v <= F._numvar, lit_true(aind(a, gadid("lift")), v) == liftsem(a, v, k, True)))',
+            'result._numvar == 2 * k * F._numvar',
+            'cmaxabs(result._clauses) <= result._numvar', 'not chaszero(result._clauses)',
+            'F._clauses == old(F._clauses)', 'F._numvar == old(F._numvar)',
+        ],
+    },
     # polarity flip: same variables, every literal negated
     (S, 'FlipPolarity.subst'): {
         'property': ['C05', 'C10'], 'params': {'lit': 'int'}, 'closure_vars': {}, 'ghost_params': {'a': 'asg'},
@@ -249,3 +297,10 @@ CONTRACTS = {
                     'sat(a, result) == satind(a, subst, formula._clauses, clen(formula._clauses))'],
     },
 }
+
+# AtLeastK & co.: the arity is called N and the threshold k in these four functions
+for _q in ('AtLeastKSubstitution', 'AtMostKSubstitution', 'ExactlyKSubstitution', 'AnythingButKSubstitution'):
+    _c = CONTRACTS[(S, _q)]
+    _c['ensures'] = [t.replace('apseq((v - 1) * k + 1, k)', 'apseq((v - 1) * N + 1, N)').replace('KK', 'k').replace('k * F._numvar', 'N * F._numvar')
+                     for t in _c['ensures']]
+    _c['loops'] = {}
